@@ -83,6 +83,10 @@ func verifRedisSetEx(r *redis.Redis, ctx context.Context, key, value string, sec
 
 func verifRedisDel(r *redis.Redis, ctx context.Context, keys ...string) (int, error) {
 	verifRedis.dels++
+	if err := ctx.Err(); err != nil {
+		// as the real client: a command on a finished context fails with its error
+		return 0, err
+	}
 	if verifRedisFails("delFault") {
 		verifRedis.delFailed++
 		return 0, verifErrRedis
@@ -400,7 +404,10 @@ func Verif_C06_ops() {
 			verifRedis.data[verifSlot(k)] = verifEntry{verifEnc("ab"), 1}
 		}
 		verifRedis.faults = true
-		n.DelCtx(ctx, keys...)
+		// the request's own context, which ends when the request is over
+		reqCtx := &verifReqCtx{ch: make(chan struct{})}
+		n.DelCtx(reqCtx, keys...)
+		reqCtx.cancel()
 		if verifRedis.delFailed == 0 {
 			verifAssert(len(verifRedis.data) == 0, "del: every named key is removed")
 			verifReach("del-ok")
@@ -423,5 +430,29 @@ func Verif_C06_ops() {
 		verifAssert(len(verifRedis.data) == 0, "del failed: every named key is removed once a retry succeeds")
 		verifAssert(len(verifTimers) == 0, "del failed: nothing is retried after the successful retry")
 		verifReach("del-retried")
+	}
+}
+
+
+// verifReqCtx is a request-scoped context the harness cancels once the request
+// is over: background retries must not depend on it.
+type verifReqCtx struct {
+	done bool
+	ch   chan struct{}
+}
+
+func (c *verifReqCtx) Deadline() (time.Time, bool) { return time.Time{}, false }
+func (c *verifReqCtx) Done() <-chan struct{}       { return c.ch }
+func (c *verifReqCtx) Err() error {
+	if c.done {
+		return context.Canceled
+	}
+	return nil
+}
+func (c *verifReqCtx) Value(key any) any { return nil }
+func (c *verifReqCtx) cancel() {
+	if !c.done {
+		c.done = true
+		close(c.ch)
 	}
 }
